@@ -247,11 +247,13 @@ def to_blackbird(prog: Program, version: str = "1.0") -> blackbird.BlackbirdProg
                 "temporal_modes": prog.timebins,
             }
         )
-        bb._var.update(
-            {
-                f"{p.name}": np.array([prog.tdm_params[i]])
-                for i, p in enumerate(prog.loop_vars)
-            }
-        )
+        for i, p in enumerate(prog.loop_vars):
+            try:
+                # a numeric array can be written as Blackbird text
+                var = np.array([prog.tdm_params[i]])
+            except ValueError:
+                # inhomogeneous parameter lists are kept as they are
+                var = np.array([prog.tdm_params[i]], dtype=object)
+            bb._var[f"{p.name}"] = var
 
     return bb
